@@ -1,0 +1,67 @@
+//go:build verif
+
+package actor
+
+// Contracts for property C07 (supervision directives), sequential kernel:
+// which action the parent takes for which directive, how the child resolves
+// the directive, and the restart budget / backoff decision.
+
+//@ property C07
+//@ load github.com/tochemey/goakt/v4/supervisor github.com/tochemey/goakt/v4/internal/commands
+
+//@ ghost var sup_actions int
+
+// the parent applies exactly the directive the failure message carries
+//@ func (*PID).handlePanicking(pid, cid, msg)
+//@   async-boundary (*PID).Tell, (*PID).doReceive, (*PID).doReinstate, (*PID).suspend, (*PID).handleStopDirective, (*PID).handleRestartDirective
+//@   requires cid != nil && msg != nil
+//@   requires msg.Directive == supervisor.RestartDirective ==> msg.Supervisor != nil && (msg.Supervisor.initialDelay <= 0 || msg.Supervisor.initialDelay <= msg.Supervisor.maxDelay)
+//@   at call 1 of (*PID).handleStopDirective assert stop-means-stop: msg.Directive == supervisor.StopDirective && arg0 == pid && arg1 == cid && arg2 == (msg.Strategy == supervisor.OneForAllStrategy)
+//@   at call 1 of (*PID).handleStopDirective ghost sup_actions = sup_actions + 1
+//@   at call 1 of (*PID).handleRestartDirective assert restart-means-restart: msg.Directive == supervisor.RestartDirective && arg0 == pid && arg1 == cid && arg2 == msg.Supervisor && arg3 == (msg.Strategy == supervisor.OneForAllStrategy)
+//@   at call 1 of (*PID).handleRestartDirective ghost sup_actions = sup_actions + 1
+//@   at call 1 of (*PID).doReinstate assert resume-keeps-the-child: msg.Directive == supervisor.ResumeDirective && arg0 == cid
+//@   at call 1 of (*PID).doReinstate ghost sup_actions = sup_actions + 1
+//@   at call 1 of (*PID).Tell assert escalate-goes-to-the-parent: msg.Directive == supervisor.EscalateDirective && arg0 == cid && arg2 == pid
+//@   at call 1 of (*PID).Tell ghost sup_actions = sup_actions + 1
+//@   at call 1 of (*PID).suspend assert unknown-directive-suspends: msg.Directive != supervisor.StopDirective && msg.Directive != supervisor.RestartDirective && msg.Directive != supervisor.ResumeDirective && msg.Directive != supervisor.EscalateDirective && arg0 == cid
+//@   at call 1 of (*PID).suspend ghost sup_actions = sup_actions + 1
+//@   ensures at-most-one-action: sup_actions <= old(sup_actions) + 1
+
+// restart: budget first (only within a positive window), then the backoff delay
+// of C08 for the faulty child's consecutive-fault count
+//@ func (*PID).handleRestartDirective(pid, cid, sup, includeSiblings)
+//@   requires cid != nil && sup != nil && (sup.initialDelay <= 0 || sup.initialDelay <= sup.maxDelay)
+//@   loop 1 invariant bounds: -1 <= rangeindex && rangeindex < len(pids)
+//@   at call 1 of (*PID).recordFault assert window-is-reset-after-or-timeout: arg1 == ite(sup.backoffResetAfter > 0, sup.backoffResetAfter, sup.timeout)
+//@   at call 1 of (*PID).suspendGroup assert suspends-only-when-the-budget-is-exhausted: sup.maxRetries > 0 && window > 0 && faults > int64(sup.maxRetries) && arg1 == cid
+//@   at call 1 of (*PID).restartChild assert restarts-only-within-the-budget: !(sup.maxRetries > 0 && window > 0 && faults > int64(sup.maxRetries))
+//@   at call 1 of (*PID).restartChild assert restart-delay-is-the-backoff: arg3 == delay && arg2 == sup
+//@   at call 1 of backoffDelay assert backoff-of-the-faulty-childs-count: arg0 == faults && arg1 == sup.initialDelay && arg2 == sup.maxDelay
+
+// the failing child resolves the directive: the rule for the error's own type
+// first, the any-error rule only when there is none, suspension when neither
+// exists; Resume never suspends and never involves the parent; every other
+// directive suspends the child and then tells the parent exactly that directive
+//@ ghost var dir1 supervisor.Directive
+//@ ghost var ok1 bool
+//@ ghost var dir2 supervisor.Directive
+//@ ghost var ok2 bool
+
+//@ func (*PID).notifyParent(pid, signal)
+//@   async-boundary (*PID).Tell, (*PID).doReceive, (*PID).suspend, (*PID).doReinstate, (*PID).setState
+//@   requires pid.supervisor != nil
+//@   preserve PID.supervisor, supervisionSignal.err
+//@   at call 1 of (*Supervisor).Directive assert asks-for-the-errors-own-rule-first: arg0 == pid.supervisor && arg1 == signal.err
+//@   at call 1 of (*Supervisor).Directive ghost dir1 = result0
+//@   at call 1 of (*Supervisor).Directive ghost ok1 = result1
+//@   at call 2 of (*Supervisor).Directive assert any-error-rule-only-as-fallback: !ok1 && arg0 == pid.supervisor && is(arg1, *gerrors.AnyError)
+//@   at call 2 of (*Supervisor).Directive ghost dir2 = result0
+//@   at call 2 of (*Supervisor).Directive ghost ok2 = result1
+//@   at call 1 of (*PID).suspend assert no-rule-means-suspension: !ok1 && !ok2 && arg0 == pid
+//@   at call 1 of (*PID).doReinstate assert resume-reinstates-itself: ite(ok1, dir1, dir2) == supervisor.ResumeDirective && arg0 == pid
+//@   at call 2 of (*PID).suspend assert without-a-parent-the-child-stays-suspended: arg0 == pid && (ok1 || ok2)
+//@   at call 3 of (*PID).suspend assert suspended-until-the-parent-acts: ite(ok1, dir1, dir2) != supervisor.ResumeDirective && arg0 == pid
+//@   at call 1 of (*PID).Tell assert tells-the-parent-the-resolved-directive: (ok1 || ok2) && msg.Directive == ite(ok1, dir1, dir2) && msg.Directive != supervisor.ResumeDirective && msg.Supervisor == pid.supervisor && msg.Err == signal.err && arg0 == pid && arg2 == parent
+//@ structural writers supervisionSignal.err: newSupervisionSignal
+//@ structural writers PID.supervisor: newPID, withSupervisor
